@@ -17,6 +17,8 @@ pub enum HOp {
     T(i64),
     /// shut the logger down and start a new one (append on/off)
     Restart(bool),
+    /// reopen_output()
+    Reopen,
 }
 
 pub struct Live {
@@ -99,6 +101,14 @@ impl<'a> Hist<'a> {
                     .map_err(|e| StepErr::Op(format!("trigger_rotation: {e} ({e:?})")))?;
             }
             HOp::F => self.live.as_ref().unwrap().handle.flush(),
+            HOp::Reopen => {
+                self.live
+                    .as_ref()
+                    .unwrap()
+                    .handle
+                    .reopen_output()
+                    .map_err(|e| StepErr::Op(format!("reopen_output: {e} ({e:?})")))?;
+            }
             HOp::T(s) => self.env.clock.advance_secs(s),
             HOp::Restart(append) => {
                 self.stop();
